@@ -205,3 +205,68 @@ func VH_C15E() {
 	}
 	vKnown("")
 }
+
+// VH_C15F: trees of derivations. The solver picks, at every step, which
+// existing handler to derive from and what to add (one attribute, two
+// attributes, a group); afterwards EVERY handler of the tree handles a record
+// and must emit exactly the attributes of its own derivation path followed
+// by the record's own, at the base logger's destination, format and level -
+// byte-identical to the native record with those attributes. Sibling
+// derivations must not disturb each other.
+func VH_C15F() {
+	vProduction()
+	flags = LstdFlags &^ Lcaller
+	rec := &vRec{}
+	lgi := New("x")
+	lg := lgi.(*logimp).Entry
+	lg.SetWriter(&recW{0, rec}).SetErrorWriter(&recW{1, rec}).SetLevel(InfoLevel)
+	if vBool() {
+		lg.SetJSONMode(true)
+	} else {
+		lg.SetColorMode(false)
+	}
+	hs := []logslog.Handler{&handler4LogSlog{lgi}}
+	paths := []Attrs{nil}
+	steps := vParam("steps", 5)
+	kinds := vParam("kinds", 3)
+	for k := 0; k < steps; k++ {
+		p := vChoose(len(hs))
+		var given Attrs
+		var d logslog.Handler
+		key := string(rune('a' + k))
+		switch vChoose(kinds) {
+		case 0:
+			d = hs[p].WithAttrs([]logslog.Attr{logslog.Int64(key, int64(k))})
+			given = Attrs{Int64(key, int64(k))}
+		case 1:
+			d = hs[p].WithGroup(key)
+			given = Attrs{Group(key)}
+		case 2:
+			d = hs[p].WithAttrs([]logslog.Attr{logslog.Int64(key, int64(k)), logslog.Bool(key+"2", true)})
+			given = Attrs{Int64(key, int64(k)), Bool(key+"2", true)}
+		}
+		vAssert(d != hs[p], "C15: a derivation returns another handler")
+		hs = append(hs, d)
+		paths = append(paths, append(append(Attrs(nil), paths[p]...), given...))
+	}
+	for i, h := range hs {
+		vAssert(h.Enabled(context.Background(), logslog.LevelDebug) == hs[0].Enabled(context.Background(), logslog.LevelDebug) &&
+			h.Enabled(context.Background(), logslog.LevelInfo) == hs[0].Enabled(context.Background(), logslog.LevelInfo),
+			"C15: a derived handler keeps the level")
+		r := logslog.NewRecord(vTime0(), logslog.LevelInfo, "m", 0)
+		r.AddAttrs(logslog.Int64("r", 1))
+		n0 := len(rec.evs)
+		_ = h.Handle(context.Background(), r)
+		vAssert(len(rec.evs) == n0+1, "C15: a derived handler keeps the destination and emits the record once")
+		if len(rec.evs) != n0+1 {
+			continue
+		}
+		got := rec.evs[n0]
+		want := append(append(Attrs(nil), paths[i]...), Int64("r", 1))
+		lg.WriteThru(context.Background(), InfoLevel, vTime0(), 0, "m", want)
+		ref := rec.evs[len(rec.evs)-1]
+		vAssert(got.W == ref.W, "C15: a derived handler keeps the destination")
+		vAssert(got.P == ref.P, "C15: a derived handler emits the attributes of its own derivation chain and the record's, in the base format")
+	}
+	vCover("C15F:compared")
+}
